@@ -21,9 +21,11 @@ def claimed():
 
 
 def run_checks(props):
+    import concurrent.futures as cf
     out = {}
-    for p in props:
-        r = sh("python3 %s/tools/check.py %s" % (V, p))
+    with cf.ThreadPoolExecutor(max_workers=5) as ex:
+        results = list(ex.map(lambda p: (p, sh("python3 %s/tools/check.py %s" % (V, p))), props))
+    for p, r in results:
         lines = [l for l in r.stdout.splitlines() if l.startswith(("VIOLATION", "TOOL-ERROR", "OK ", "KNOWN-FINDING"))]
         first = next((l for l in lines if l.startswith("VIOLATION")), None) or next((l for l in lines if l.startswith("TOOL-ERROR")), None) \
             or next((l for l in lines if l.startswith("OK ")), "")
